@@ -249,7 +249,7 @@ def run_xml(case, rec):
         labels.add((mk, kind_cls, "depth%d" % min(depth, 3), v))
         rec.count("xml:" + v)
     for lab in labels:
-        rec.case(case, nontrivial={"fam": "xml", "val": base["validator"], "lab": list(lab)}, sample=False,
+        rec.case(case, nontrivial={"fam": "xml", "val": base["validator"], "lab": list(lab)},
                  classes=["xml:%s:%s" % (lab[0], lab[3])])
     rec.case(case, failures=fails, classes=["fam:xml"])
     return fails
@@ -312,7 +312,7 @@ def run_dict(case, rec):
         labels.add((mk, base["prot"], v))
         rec.count("dict:" + v)
     for lab in labels:
-        rec.case(case, nontrivial={"fam": "dict", "lab": list(lab)}, sample=False,
+        rec.case(case, nontrivial={"fam": "dict", "lab": list(lab)},
                  classes=["dict:%s:%s" % (lab[0].split(":")[0], lab[2])])
     rec.case(case, failures=fails, classes=["fam:dict"])
     return fails
@@ -376,7 +376,7 @@ def run_http(case, rec):
         labels.add((mk, v2))
         rec.count("http:" + v2)
     for lab in labels:
-        rec.case(case, nontrivial={"fam": "http", "lab": list(lab)}, sample=False,
+        rec.case(case, nontrivial={"fam": "http", "lab": list(lab)},
                  classes=["http:%s:%s" % lab])
     rec.case(case, failures=fails, classes=["fam:http"])
     return fails
